@@ -26,6 +26,11 @@ func init() {
 				if n.IsConst() {
 					return ConcreteString(strconv.Itoa(int(n.Signed())))
 				}
+				if e.Params["itoadigit"] != 1 && prevItoa != nil {
+					// the one-digit model is opt-in (job parameter itoadigit=1, C20): elsewhere the text of a number is never
+					// looked at and an opaque string lets the paths of a rendering loop merge
+					return prevItoa(e, st, cc, a)
+				}
 				inRange := And(BVCmp("bvsge", n, ConstBV(0, 64)), BVCmp("bvsle", n, ConstBV(9, 64)))
 				r := e.S.Check(st.pc, Not(inRange))
 				e.S.EndModel()
